@@ -1,0 +1,8 @@
+//go:build !verif
+
+package keeper
+
+import sdk "github.com/cosmos/cosmos-sdk/types"
+
+// failAfterDequeue is a simulation fault point; it does nothing in the shipped build.
+func failAfterDequeue(_ sdk.Context) error { return nil }
